@@ -65,6 +65,8 @@ func panicKind(msg string) string {
 		return "type-assertion-panic"
 	case strings.Contains(msg, "assignment to entry in nil map"):
 		return "nil-map-write-panic"
+	case strings.Contains(msg, "reflect: call of"):
+		return "reflect-panic"
 	case strings.Contains(msg, "slice bounds out of range"):
 		return "slice-bounds-panic"
 	}
@@ -142,18 +144,18 @@ type Expect struct {
 }
 
 type HTTPCase struct {
-	Part     string `json:"part"`
-	Endpoint string `json:"endpoint"` // POST SSE MIXED URLENC GRAPHQL GETVARS GETEXT GETRAW MULTIPART
-	Class    string `json:"class"`    // input class, used in signatures
-	Target   string `json:"target,omitempty"`   // request target for GET endpoints ("/?...")
-	RawReq   []byte `json:"raw_req,omitempty"`  // GETRAW: full request text for http.ReadRequest
-	CType    string `json:"ctype,omitempty"`
-	Accept   string `json:"accept,omitempty"`
-	Body     []byte `json:"body,omitempty"`
-	ChunkedCL bool  `json:"unknown_content_length,omitempty"`
-	MaxUpload int64 `json:"max_upload,omitempty"`
-	MaxMem    int64 `json:"max_mem,omitempty"`
-	Up        bool  `json:"upload_schema,omitempty"`
+	Part      string `json:"part"`
+	Endpoint  string `json:"endpoint"`          // POST SSE MIXED URLENC GRAPHQL GETVARS GETEXT GETRAW MULTIPART
+	Class     string `json:"class"`             // input class, used in signatures
+	Target    string `json:"target,omitempty"`  // request target for GET endpoints ("/?...")
+	RawReq    []byte `json:"raw_req,omitempty"` // GETRAW: full request text for http.ReadRequest
+	CType     string `json:"ctype,omitempty"`
+	Accept    string `json:"accept,omitempty"`
+	Body      []byte `json:"body,omitempty"`
+	ChunkedCL bool   `json:"unknown_content_length,omitempty"`
+	MaxUpload int64  `json:"max_upload,omitempty"`
+	MaxMem    int64  `json:"max_mem,omitempty"`
+	Up        bool   `json:"upload_schema,omitempty"`
 	Exp       Expect `json:"exp"`
 	Note      string `json:"note,omitempty"`
 }
@@ -164,16 +166,16 @@ func (c *HTTPCase) key() string {
 
 // Obs is what the harness observed.
 type Obs struct {
-	Unreachable bool     `json:"unreachable,omitempty"` // net/http itself rejects the request text
-	Status      int      `json:"status"`
-	CT          string   `json:"content_type"`
-	Body        string   `json:"body"`
-	Hook        int      `json:"hook"`
-	HookMsg     string   `json:"hook_msg,omitempty"`
-	Escaped     string   `json:"escaped,omitempty"`
-	Events      []string `json:"events,omitempty"`
+	Unreachable bool         `json:"unreachable,omitempty"` // net/http itself rejects the request text
+	Status      int          `json:"status"`
+	CT          string       `json:"content_type"`
+	Body        string       `json:"body"`
+	Hook        int          `json:"hook"`
+	HookMsg     string       `json:"hook_msg,omitempty"`
+	Escaped     string       `json:"escaped,omitempty"`
+	Events      []string     `json:"events,omitempty"`
 	Seen        []SeenUpload `json:"seen,omitempty"`
-	TmpLeft     []string `json:"tmp_left,omitempty"`
+	TmpLeft     []string     `json:"tmp_left,omitempty"`
 }
 
 type onlyReader struct{ r io.Reader }
